@@ -16,7 +16,7 @@ Confusable texts: the MAC is computed over key.encode() and _to_bytes(secret); p
 lossy conversion (error handlers ignore/replace/backslashreplace/..., normalisation, case folding, truncation) would map
 to the same bytes are written and each blob copied under the other key; groups of DIFFERENT secret texts that numeric
 parsing / str() rendering would identify are configured (settings url, str and bytes keywords) and each blob read under
-the others.  Configurations that cannot sign on the tree under test (probed) are listed, not judged.
+the others.  A configuration that cannot sign on the tree under test (probed) is a violation (defect D42, repaired c2756b4).
 
 Known finding D25 (MAC over key||payload without a separator): reported as KNOWN-FINDING, exit 0; any other tampered
 blob that becomes a value is a VIOLATION.
@@ -867,9 +867,15 @@ def run(chk: Check) -> int:
                     "secret: model comparison only)",
         }
         if unusable:
-            chk.say("NOTE property=C10 not judged: " + str(len(unusable)) + " secret configurations cannot sign on this tree (a "
-                    "numeric-looking secret in the settings url reaches HashSigner as int/float: every write raises TypeError, "
-                    "'secret=0' silently builds an unsigned cache) - see coverage.confusable_texts.secret_probe_not_signing")
+            # defect D42 (repaired in /repo as c2756b4): a cache the user configured with a secret that verifies nothing
+            # (`unsigned`) or cannot be used at all is a violation of "reads ... never return a value"'s premise - signed storage
+            chk.violation(
+                f"{len(unusable)} secret configurations cannot sign on this tree (a numeric-looking secret in the settings url reaches "
+                f"HashSigner as int/float: every write raises TypeError; 'secret=0' silently builds an unsigned cache): {sorted(unusable)[:6]}",
+                {"probes": unusable, "how": "Cache().setup('mem://?secret=<text>&digestmod=md5'); await cache.set('probe', 'p'); "
+                                            "await cache.get_raw('probe')"},
+                signature="D42:url-numeric-secret")
+            found += 1
     if proof is not None:
         chk.proof_broken(proof, found > 0)
     chk.coverage.update({
